@@ -463,3 +463,22 @@ def outcome_of(fn, *a, **kw):
         raise
     except BaseException as e:
         return ("exc", type(e).__name__)
+
+
+import contextlib
+import decimal as _decimal
+
+
+@contextlib.contextmanager
+def decimal_precision(prec):
+    """
+    Environment answer: the thread's decimal context (an ambient setting any caller may have changed).
+    Exact construction and printing of decimals do not depend on it; arithmetic does.
+    """
+    ctx = _decimal.getcontext()
+    old = ctx.prec
+    ctx.prec = prec
+    try:
+        yield
+    finally:
+        ctx.prec = old
